@@ -200,7 +200,7 @@ func All() []Variant {
 		c, f := classOf(v.Name)
 		out = append(out, Variant{Name: v.Name, Class: c, MinFork: f, Make: v.Make})
 	}
-	return append(out, extensions()...)
+	return append(append(out, extensions()...), shapeVariants()...)
 }
 
 func hasPrefix(s, p string) bool { return len(s) >= len(p) && s[:len(p)] == p }
@@ -276,7 +276,20 @@ func extensions() []Variant {
 					set = append(set, p)
 				}
 			}
+			if len(set) == 0 {
+				return ErrNotApplicable
+			}
+			// keep the signature consistent with the remaining bits: only the length condition fails
+			comm, err := pre.Committee(a.Data.Slot, a.Data.Index)
+			if err != nil {
+				return ErrNotApplicable
+			}
+			var who []common.ValidatorIndex
+			for _, p := range set {
+				who = append(who, comm[p])
+			}
 			a.AggregationBits = chain.NewAttestationBits(n-1, set)
+			resign(pre, a, who, attDomain(pre, a))
 			return nil
 		}))},
 		{"attestation-no-bits", "attestation", P0, edited(editAtt(true, func(pre *chain.StateCtx, a *phase0.Attestation, in, out []common.ValidatorIndex) error {
@@ -620,6 +633,73 @@ func extensions() []Variant {
 		}))},
 	}
 	return vs
+}
+
+// indexedShape builds attester-slashing variants in which ONLY the shape of attesting_indices is wrong: the
+// aggregate signature is recomputed over exactly the (edited) index list, so that is_valid_indexed_attestation
+// fails on "sorted and unique" (or "non-empty") alone.
+func indexedShape(second bool, edit func(ix []common.ValidatorIndex) ([]common.ValidatorIndex, error)) bodyEdit {
+	return func(pre *chain.StateCtx, env *common.BeaconBlockEnvelope, ops *chain.BodyOps) error {
+		if len(*ops.AttesterSlashings) == 0 {
+			return ErrNotApplicable
+		}
+		a := &(*ops.AttesterSlashings)[0].Attestation1
+		if second {
+			a = &(*ops.AttesterSlashings)[0].Attestation2
+		}
+		ix, err := edit(append([]common.ValidatorIndex(nil), a.AttestingIndices...))
+		if err != nil {
+			return err
+		}
+		a.AttestingIndices = ix
+		a.Signature = chain.SignAttestationData(pre.Keys, &a.Data, pre.KeysOf(ix), pre.Domain(common.DOMAIN_BEACON_ATTESTER, a.Data.Target.Epoch))
+		return nil
+	}
+}
+
+func dupAt(pos string) func(ix []common.ValidatorIndex) ([]common.ValidatorIndex, error) {
+	return func(ix []common.ValidatorIndex) ([]common.ValidatorIndex, error) {
+		if len(ix) == 0 || (pos == "middle" && len(ix) < 3) {
+			return nil, ErrNotApplicable
+		}
+		i := 0
+		switch pos {
+		case "middle":
+			i = len(ix) / 2
+		case "last":
+			i = len(ix) - 1
+		}
+		out := append([]common.ValidatorIndex{}, ix[:i+1]...)
+		out = append(out, ix[i]) // [.. x x ..]: still non-decreasing, no longer unique
+		return append(out, ix[i+1:]...), nil
+	}
+}
+
+func shapeVariants() []Variant {
+	var out []Variant
+	for _, second := range []bool{false, true} {
+		tag := "1"
+		if second {
+			tag = "2"
+		}
+		for _, pos := range []string{"first", "middle", "last"} {
+			out = append(out, Variant{"attester-slashing-duplicate-" + pos + "-index-resigned-" + tag, "indexed_attestation_shape", chain.Phase0,
+				edited(indexedShape(second, dupAt(pos)))})
+		}
+		out = append(out, Variant{"attester-slashing-unsorted-unique-resigned-" + tag, "indexed_attestation_shape", chain.Phase0,
+			edited(indexedShape(second, func(ix []common.ValidatorIndex) ([]common.ValidatorIndex, error) {
+				if len(ix) < 2 {
+					return nil, ErrNotApplicable
+				}
+				ix[len(ix)-2], ix[len(ix)-1] = ix[len(ix)-1], ix[len(ix)-2]
+				return ix, nil
+			}))})
+		out = append(out, Variant{"attester-slashing-empty-indices-" + tag, "indexed_attestation_shape", chain.Phase0,
+			edited(indexedShape(second, func(ix []common.ValidatorIndex) ([]common.ValidatorIndex, error) {
+				return []common.ValidatorIndex{}, nil // signed by nobody: the point at infinity
+			}))})
+	}
+	return out
 }
 
 func editWithdrawals(fn func(ws []common.Withdrawal) ([]common.Withdrawal, error)) bodyEdit {
